@@ -278,13 +278,15 @@ struct WaitProg : Program
     // 3 all     : A, B; waker gated on both queued: unwait_all(55)
     // 4 one_of_2: A, B (B after A); waker gated on both queued: ONE unwait_one(100): A returns, B must stay parked
     // 5 all_race: A, B free; waker: gate non-empty, unwait_all(55); gate "B not returned => non-empty or done" second unwait_all(56)
+    // 6 early   : 1 waiter; waker issues unwait_one(1) and unwait_all(2) UNGATED (the queue may still be empty: a wake over an
+    //             empty queue is a no-op that leaves the system lock free), then a gated unwait_one(3)
     int variant;
     std::unique_ptr<igris::dlist_base> head;
     std::atomic<int> woken_calls{0};
     std::atomic<int> b_parked_at_quiescence{-1}, a_back_at_quiescence{-1};
     WaitProg(int v) : variant(v)
     {
-        static const char *nm[] = {"W_race", "W_fifo", "W_prio", "W_all", "W_one_of_two", "W_all_race"};
+        static const char *nm[] = {"W_race", "W_fifo", "W_prio", "W_all", "W_one_of_two", "W_all_race", "W_early_wake"};
         name = nm[v];
     }
     void waiter(int id, int prio)
@@ -374,6 +376,24 @@ struct WaitProg : Program
                 },
                 "waker");
             break;
+        case 6:
+            sched::spawn([this] { waiter(0, 0); }, "waiter");
+            sched::spawn(
+                [this] {
+                    unwait_one(head.get(), FUT + 1);
+                    if (syslock_counter() != 0)
+                        log.fail(1, "lock_left_held", "unwait_one returned with the system lock still held by the caller");
+                    unwait_all(head.get(), FUT + 2);
+                    if (syslock_counter() != 0)
+                        log.fail(1, "lock_left_held", "unwait_all returned with the system lock still held by the caller");
+                    sched::wait_until([this] { return !head->empty() || log.returned[0].load() != 0; }, "waiter queued or already back");
+                    unwait_one(head.get(), FUT + 3);
+                    if (syslock_counter() != 0)
+                        log.fail(1, "lock_left_held", "unwait_one returned with the system lock still held by the caller");
+                    log.returned[1] = 1;
+                },
+                "waker");
+            break;
         case 5:
             sched::spawn([this] { waiter(0, 0); }, "waiterA");
             sched::spawn([this] { waiter(1, 0); }, "waiterB");
@@ -431,6 +451,13 @@ struct WaitProg : Program
         case 3:
             want(0, FUT + 55);
             want(1, FUT + 55);
+            break;
+        case 6:
+            if (log.returned[0] != 1 || log.value[0] < FUT + 1 || log.value[0] > FUT + 3)
+                mc::violation("C20." + name + ".wrong_future", "the waiter returned %d times with %ld, want once with one of the three wake values",
+                              log.returned[0].load(), log.value[0].load());
+            if (!head->empty())
+                mc::violation("C20." + name + ".queue_not_empty", "the wait queue still holds a node after the only waiter returned");
             break;
         case 5:
             for (int id = 0; id < 2; id++)
@@ -659,7 +686,7 @@ MC_INIT
 {
     for (int v = 0; v < 4; v++)
         add_prog(LockProg(v).name, [v] { return new LockProg(v); }, 2, 3);
-    for (int v = 0; v < 6; v++)
+    for (int v = 0; v < 7; v++)
     {
         add_prog(WaitProg(v).name, [v] { return new WaitProg(v); }, 2, 3);
         add_one(WaitProg(v).name, [v] { return new WaitProg(v); }, 2, 1, true); // + one spurious condvar wake-up
